@@ -1,10 +1,98 @@
-/- line-protocol handlers for Model/HandBitmap.lean.  All commands are prefixed `hb.`. -/
+/- line-protocol handlers for Model/HandBitmap.lean.  All commands are prefixed `hb.`.
+
+  hb.list <off> <size> <n> <hex d>                          BitmapSize::index_subtable_list + records
+  hb.sub  <last> <first> <hex sd>                           IndexSubtable::read_with_args + accessors
+  hb.loc  <off> <size> <n> <start> <end> <depth> <hex d> <gid>…   BitmapSize::location per glyph id
+  hb.data <color> <format> <offset> <size> <depth> <metrics hex|-> <hex d>   bitmap_data
+  hb.sbix <num_glyphs> <hex strike> <gid>…                  Strike::read + Strike::glyph_data per glyph id
+-/
 import FontVerif.Model.HandBitmap
 namespace FontVerif.Drv.C01HandBitmap
-open FontVerif FontVerif.ReadIter FontVerif.HandRead FontVerif.HandBitmap
+open FontVerif FontVerif.HandRead FontVerif.HandBitmap
+
+def errStr : BErr → String
+  | .oob => "e:OutOfBounds"
+  | .invalidArrayLen => "e:InvalidArrayLen"
+  | .nullOffset => "e:NullOffset"
+  | .invalidFormat f => s!"e:InvalidFormat({f})"
+  | .invalidIndex g => s!"e:InvalidCollectionIndex({g})"
+  | .noMetrics => "e:Malformed:metrics"
+  | .badFormat => "e:Malformed:format"
+
+def resStr {α : Type} (f : α → String) : Res α → String
+  | .ok a => f a
+  | .err e => errStr e
+  | .trap => "trap"
+
+def locStr (l : Loc) : String :=
+  let m := match l.metrics with | some m => toHex m | none => "none"
+  s!"ok:{l.format}:{l.dataOffset}:{l.dataSize}:{l.bitDepth}:{m}:{if l.isEmpty then 1 else 0}"
+
+def subStr (sd : List Nat) (sub : Sub) : String :=
+  let v := match sub with
+    | .f1 c => s!"1:{c}" | .f2 => "2:1" | .f3 c => s!"3:{c}" | .f4 c => s!"4:{c}" | .f5 c => s!"5:{c}"
+  s!"ok:{v}:{subIndexFormat sd}:{subImageFormat sd}:{subImageDataOffset sd}:{subMinEnd sub}:{sd.length}"
+
+def kindStr : Kind → String
+  | .byteAligned => "byte" | .bitAligned => "bit" | .png => "png" | .composite => "comp"
+
+def dataStr (b : BData) : String :=
+  let pos := if b.count = 0 then "-" else toString b.start
+  s!"ok:{if b.small then "S" else "B"}:{toHex b.metrics}:{kindStr b.kind}:{b.count}:{pos}"
+
+def joinStrs (xs : List String) : String := if xs.isEmpty then "-" else " ".intercalate xs
+
+def glyphStr (sd : List Nat) : Option (Nat × Nat) → String
+  | none => "none"
+  | some (s, e) => s!"ok:{s}:{e}:{beAt sd s 2}:{beAt sd (s + 2) 2}:{beAt sd (s + 4) 4}:{e - s - 8}"
 
 def handle (cmd : String) (args : List String) : Option String :=
   match cmd, args with
+  | "hb.list", [off, size, n, hex] =>
+    match off.toNat?, size.toNat?, n.toNat?, parseHex? hex with
+    | some off, some size, some n, some d =>
+      match indexSubtableList d off size n with
+      | .error e => some (errStr e)
+      | .ok ld =>
+        let rs := (records ld n).map (fun r => s!"{r.1},{r.2.1},{r.2.2}")
+        some s!"ok:{ld.length}:{joinStrs rs}"
+    | _, _, _, _ => none
+  | "hb.sub", [last, first, hex] =>
+    match last.toNat?, first.toNat?, parseHex? hex with
+    | some last, some first, some sd =>
+      match readSubtable sd last first with
+      | .error e => some (errStr e)
+      | .ok sub => some (subStr sd sub)
+    | _, _, _ => none
+  | "hb.loc", off :: size :: n :: start :: end_ :: depth :: hex :: gids =>
+    match parseNats? [off, size, n, start, end_, depth], parseHex? hex, parseNats? gids with
+    | some [off, size, n, start, end_, depth], some d, some gids =>
+      let sz : Size := { listOffset := off, listSize := size, numSubtables := n, startGlyph := start,
+                         endGlyph := end_, bitDepth := depth }
+      some (joinStrs (gids.map (fun g => resStr locStr (location d sz g))))
+    | _, _, _ => none
+  | "hb.data", [color, format, off, size, depth, mhex, hex] =>
+    match parseNats? [color, format, off, size, depth], parseHex? hex with
+    | some [color, format, off, size, depth], some d =>
+      let metrics : Option (Option (List Nat)) :=
+        if mhex = "-" then some none
+        else match parseHex? mhex with
+          | some m => if m.length = 8 then some (some m) else none
+          | none => none
+      match metrics with
+      | none => none
+      | some metrics =>
+        if color > 1 then none else
+        let loc : Loc := { format := format, dataOffset := off, dataSize := size, bitDepth := depth, metrics := metrics }
+        some (resStr dataStr (bitmapData d loc (color = 1)))
+    | _, _ => none
+  | "hb.sbix", ng :: hex :: gids =>
+    match ng.toNat?, parseHex? hex, parseNats? gids with
+    | some ng, some sd, some gids =>
+      match strikeRead sd ng with
+      | .error e => some (errStr e)
+      | .ok count => some (joinStrs (gids.map (fun g => resStr (glyphStr sd) (glyphData sd count g))))
+    | _, _, _ => none
   | _, _ => none
 
 end FontVerif.Drv.C01HandBitmap
